@@ -228,6 +228,64 @@ func (f *Frame) eval(e Expr, c *evalCtx) Val {
 		return Val{T: SliceMk(SBase(s.T), Add(SOff(s.T), lo), Sub(hi, lo), Sub(SCap(s.T), lo)), Go: s.Go}
 	case ECall:
 		return f.evalCall(x, c)
+	case EMethod:
+		recv := f.eval(x.X, c)
+		if recv.Go == nil {
+			f.fail("method %s on untyped value", x.Name)
+		}
+		key := "(" + types.TypeString(recv.Go, nil) + ")." + x.Name
+		ct := un.eng.contracts[key]
+		if ct == nil || !ct.Pure {
+			f.fail("method %s in a contract needs a pure contract for %s", x.Name, key)
+		}
+		if len(ct.Params) != len(x.Args)+1 {
+			f.fail("method %s: wrong number of arguments", x.Name)
+		}
+		env := map[string]Val{ct.Params[0].Name: recv}
+		for i, a := range x.Args {
+			env[ct.Params[i+1].Name] = f.eval(a, c)
+		}
+		rname := "result"
+		if len(ct.Results) == 1 {
+			rname = ct.Results[0].Name
+		}
+		for _, en := range ct.Ensures {
+			if b, ok := en.E.(EBinary); ok && (b.Op == "==" || b.Op == "<==>") {
+				if id, ok := b.L.(EIdent); ok && id.Name == rname {
+					v := f.eval(b.R, &evalCtx{env: env, cur: c.cur, old: c.old, depth: c.depth + 1})
+					if m, ok := recv.Go.Underlying().(*types.Interface); ok {
+						for i := 0; i < m.NumMethods(); i++ {
+							if m.Method(i).Name() == x.Name {
+								v.Go = m.Method(i).Type().(*types.Signature).Results().At(0).Type()
+							}
+						}
+					}
+					return v
+				}
+			}
+		}
+		// no defining postcondition: an uninterpreted function of the receiver and the arguments
+		var sig *types.Signature
+		if m, ok := recv.Go.Underlying().(*types.Interface); ok {
+			for i := 0; i < m.NumMethods(); i++ {
+				if m.Method(i).Name() == x.Name {
+					sig = m.Method(i).Type().(*types.Signature)
+				}
+			}
+		}
+		if sig == nil || sig.Results().Len() != 1 {
+			f.fail("method %s: cannot determine the result type", x.Name)
+		}
+		rt := sig.Results().At(0).Type()
+		ts := []Term{recv.T}
+		as := []Sort{recv.T.Sort}
+		for i := range x.Args {
+			a := env[ct.Params[i+1].Name]
+			ts = append(ts, a.T)
+			as = append(as, a.T.Sort)
+		}
+		un.eng.declareUF("m_"+sanitize(key), as, u.SortOf(rt))
+		return Val{T: mk(u.SortOf(rt), "uf_m_"+sanitize(key), ts...), Go: rt}
 	}
 	f.fail("cannot evaluate %T", e)
 	return Val{}
@@ -456,6 +514,8 @@ func (f *Frame) evalCall(x ECall, c *evalCtx) Val {
 			t = SBase(t)
 		}
 		return boolVal(Le(t, un.H(c.cur, "$next", SInt)))
+	case "dynval":
+		return intVal(IVal(f.eval(x.Args[0], c).T))
 	case "dyntype":
 		return intVal(ITag(f.eval(x.Args[0], c).T))
 	case "typeis":
